@@ -346,6 +346,33 @@ theorem runAcc_inv (ids : List Int) : ∀ (b acc : List Int), b ≠ [] → (∀ 
       have := ih _ _ hb' hrest step
       exact ⟨this.1, by rw [this.2, hlen]⟩
 
+theorem runAcc_nodup (ids : List Int) : ∀ (b acc : List Int), b ≠ [] → (∀ x ∈ ids, 0 < x) → Inv b acc →
+    acc.Nodup → (runAcc b acc ids).2.Nodup := by
+  induction ids with
+  | nil => intro b acc _ _ _ hnd; exact hnd
+  | cons x rest ih =>
+    intro b acc hb hpos inv hnd
+    have hx : 0 < x := hpos x (by simp)
+    have hrest : ∀ y ∈ rest, 0 < y := fun y hy => hpos y (by simp [hy])
+    have hlen := consume_length b x
+    have hb' : (consume b x).1 ≠ [] := by
+      intro h; rw [h] at hlen; cases b with
+      | nil => exact hb rfl
+      | cons _ _ => simp at hlen
+    have step := inv_step b acc hb x hx inv
+    simp only [runAcc]
+    by_cases hv : (consume b x).2 = true
+    · simp only [hv, if_true] at step ⊢
+      have hacc := (consume_accepts_iff b hb x).mp hv
+      have hxa : x ∉ acc := by
+        intro hmem
+        rcases inv.largest x hmem with h | h
+        · exact hacc.1 h
+        · exact hacc.2 h
+      exact ih _ _ hb' hrest step (List.nodup_cons.mpr ⟨hxa, hnd⟩)
+    · have hv' : (consume b x).2 = false := by simpa using hv
+      simp only [hv', Bool.false_eq_true, if_false] at step ⊢
+      exact ih _ _ hb' hrest step hnd
 theorem count_set_zero (l : List Int) : ∀ (k : Nat) (x : Int), l[k]? = some 0 → x ≠ 0 →
     (l.set k x).count 0 + 1 = l.count 0 := by
   induction l with
